@@ -97,9 +97,9 @@ fn gen_c<C: Suite>(seed: u64, run: u64, tier: Tier) -> Scenario {
         if p.chance(1, 2) {
             r.sort();
         }
-        // (the glue announces an enrolled participant's verifying share to the coordinator only, so enrolment is followed
-        // by trusted-dealer refreshes)
-        let use_dkg = !enrol && p.chance(1, 2) && r.len() >= 2 && (r.len() <= if slow { 3 } else { 6 });
+        // (the coordinator passes an enrolled participant's extended public key package on to everybody, so enrolment may be
+        // followed by either refresh procedure)
+        let use_dkg = p.chance(1, 2) && r.len() >= 2 && (r.len() <= if slow { 3 } else { 6 });
         s.phases.push(vec![if use_dkg { Inst::RefreshDkg { remaining: r.clone() } } else { Inst::RefreshDealer { remaining: r.clone() } }]);
         members = r.clone();
         members.sort();
